@@ -105,6 +105,7 @@ func runC01(c *fw.Ctx, idx int) fw.Result {
 		pr.PIns, pr.PDel, pr.PSkip = 0.12, 0.12, 0.05
 	}
 	sf := gen.MakeSam(r, ref, pr)
+	sf.Text = noFinalNL(r, sf.Text)
 	pad := r.Chance(0.5)
 	s, e, wk := window(r, L)
 	wrap := pickWrap(r, L)
